@@ -39,6 +39,10 @@ CONSTANTS
   TestCells,     \* TRUE: originators may send speed-test request cells
   E2E,           \* TRUE: two circuits may be linked at a rendezvous point (hidden services)
   Aead,          \* TRUE: a layer only comes off if it authenticates (ChaCha20-Poly1305); FALSE: negative control
+  SuspendJoin,   \* TRUE: should_join_circuit (an async extension point) really suspends - on_create is two steps, the
+                 \* guards at delivery and the join when the decision resumes (JoinResume); FALSE: the shipped classes
+  JoinCacheFirst,\* TRUE: join_circuit registers the CreatedRequestCache (which raises for a circuit id that has one) BEFORE it
+                 \* installs the exit socket (the code); FALSE: the other order (negative control for KeyAgreement)
   RelayOnce,     \* TRUE: a created for a circuit that was already turned into a relay is dropped (the code since the fix);
                  \* FALSE: the pinned earlier behaviour - while the exit entry lingers (remove_tunnel_delay) the forward route
                  \* is re-pointed by whichever created arrives last (negative control for PathAgreement)
@@ -294,31 +298,62 @@ RelayCell(d) ==
 
 \* on_create -> should_join_circuit -> join_circuit
 InUse(n, cid) == Has(circ[n], cid) \/ Has(relay[n], cid) \/ Has(exit[n], cid)
-WillJoin(n, cid) ==
+GuardsPass(n, cid) ==
   /\ Flags[n] # {}
   /\ ~Has(createdC[n], cid)
   /\ CreateGuard => ~InUse(n, cid)
-  /\ MaxJoined > Cardinality(DOMAIN relay[n]) + Cardinality(DOMAIN exit[n])
+BelowLimit(n) == MaxJoined > Cardinality(DOMAIN relay[n]) + Cardinality(DOMAIN exit[n])
+WillJoin(n, cid) == GuardsPass(n, cid) /\ BelowLimit(n)
+
+\* join_circuit: fresh ephemeral, session keys, CreatedRequestCache, exit socket, created answer
+JoinEffects(n, cid, src, m) ==
+  LET e2  == ctr.eph + 1
+      key == [e1 |-> m.eph, e2 |-> e2, st |-> n]
+      ans == [t |-> "created", cid |-> cid, ident |-> m.ident, eph |-> e2,
+              auth |-> [e1 |-> m.eph, e2 |-> e2], cands |-> [k |-> key, v |-> Cands[n]]]
+  IN [createdC |-> [createdC EXCEPT ![n] = Put(@, cid, [due |-> now + Unstable])],
+      exit |-> [exit EXCEPT ![n] = Put(@, cid, [prev |-> src, pk |-> m.pk, key |-> key, enabled |-> FALSE,
+                                              open |-> FALSE, q |-> <<>>, act |-> now, born |-> now])],
+      out |-> <<Cell(n, src, cid, TRUE, FALSE, <<>>, ans)>>,
+      ctr |-> [ctr EXCEPT !.eph = e2, !.msg = Bump(@, 1)],
+      hist |-> [hist EXCEPT !.joined = @ \cup {[n |-> n, key |-> key]}]]
 
 OnCreate(d) ==
   /\ d \in net /\ d.t = "cell" /\ d.dst \in Node /\ Accepted(d.dst, d) /\ d.m.t = "create"
   /\ LET n == d.dst  m == d.m  cid == d.cid IN
-     IF ~WillJoin(n, cid)
-     THEN /\ Emit({d}, <<>>)
+     IF SuspendJoin /\ GuardsPass(n, cid)
+     THEN \* the guards passed; the task now waits for should_join_circuit (nothing is registered yet)
+          /\ pend' = pend \cup {[n |-> n, kind |-> "join", cid |-> cid, due |-> 0, k |-> d.id, src |-> d.src, m |-> m]}
+          /\ Emit({d}, <<>>)
           /\ circ' = [circ EXCEPT ![n] = Beat(@, n, cid)]
           /\ UNCHANGED <<exit, createdC, ctr, hist>>
-     ELSE LET e2  == ctr.eph + 1
-              key == [e1 |-> m.eph, e2 |-> e2, st |-> n]
-              ans == [t |-> "created", cid |-> cid, ident |-> m.ident, eph |-> e2,
-                      auth |-> [e1 |-> m.eph, e2 |-> e2], cands |-> [k |-> key, v |-> Cands[n]]]
-          IN /\ createdC' = [createdC EXCEPT ![n] = Put(@, cid, [due |-> now + Unstable])]
-             /\ exit' = [exit EXCEPT ![n] = Put(@, cid, [prev |-> d.src, pk |-> m.pk, key |-> key, enabled |-> FALSE,
-                                                        open |-> FALSE, q |-> <<>>, act |-> now, born |-> now])]
-             /\ Emit({d}, StampIds(<<Cell(n, d.src, cid, TRUE, FALSE, <<>>, ans)>>))
-             /\ ctr' = [ctr EXCEPT !.eph = e2, !.msg = Bump(@, 1)]
+     ELSE IF ~WillJoin(n, cid)
+     THEN /\ Emit({d}, <<>>)
+          /\ circ' = [circ EXCEPT ![n] = Beat(@, n, cid)]
+          /\ UNCHANGED <<exit, createdC, ctr, hist, pend>>
+     ELSE LET j == JoinEffects(n, cid, d.src, m)
+          IN /\ createdC' = j.createdC /\ exit' = j.exit /\ ctr' = j.ctr /\ hist' = j.hist
+             /\ Emit({d}, StampIds(j.out))
              /\ circ' = [circ EXCEPT ![n] = Beat(@, n, cid)]
-             /\ hist' = [hist EXCEPT !.joined = @ \cup {[n |-> n, key |-> key]}]
-  /\ UNCHANGED <<relay, retryC, createC, pingC, pend, now, sweepAt, pingAt, budget>>
+             /\ UNCHANGED pend
+  /\ UNCHANGED <<relay, retryC, createC, pingC, now, sweepAt, pingAt, budget>>
+
+\* should_join_circuit has decided: the rest of on_create runs (the guards are NOT evaluated again)
+JoinResume(p) ==
+  /\ p \in pend /\ p.kind = "join"
+  /\ pend' = pend \ {p}
+  /\ LET n == p.n  cid == p.cid
+         j == JoinEffects(n, cid, p.src, p.m)
+     IN
+     IF ~BelowLimit(n) THEN UNCHANGED <<exit, createdC, ctr, hist, net>>
+     ELSE IF Has(createdC[n], cid) THEN
+          \* NumberCache's constructor raises for an identifier that is registered: the task dies there
+          IF JoinCacheFirst THEN UNCHANGED <<exit, createdC, ctr, hist, net>>
+          ELSE /\ exit' = j.exit /\ ctr' = [j.ctr EXCEPT !.msg = ctr.msg] /\ hist' = j.hist
+               /\ UNCHANGED <<createdC, net>>
+     ELSE /\ createdC' = j.createdC /\ exit' = j.exit /\ ctr' = j.ctr /\ hist' = j.hist
+          /\ Emit({}, StampIds(j.out))
+  /\ UNCHANGED <<circ, relay, retryC, createC, pingC, now, sweepAt, pingAt, budget>>
 
 \* send_extend: choose the next hop among the offered candidates (first not excluded), or give up
 NextChoice(n, c, cands) ==
@@ -596,7 +631,7 @@ OnDestroy(d) ==
 (* ------------------------------------------------ timers ------------------------------------------------ *)
 \* the sleeping remove_* task wakes up and pops the entry (closing the exit's outside sockets)
 PendPop(p) ==
-  /\ p \in pend /\ p.due <= now
+  /\ p \in pend /\ p.kind # "join" /\ p.due <= now
   /\ pend' = pend \ {p}
   /\ circ' = IF p.kind = "circuit" /\ Has(circ[p.n], p.cid) THEN [circ EXCEPT ![p.n] = Del(@, p.cid)] ELSE circ
   /\ relay' = IF p.kind = "relay" /\ Has(relay[p.n], p.cid) THEN [relay EXCEPT ![p.n] = Del(@, p.cid)] ELSE relay
@@ -666,7 +701,7 @@ EarlierDue(n) == \E m \in Node : NodeRank[m] < NodeRank[n] /\
                     ((HasEntries(m) /\ sweepAt[m] <= now) \/ (PingTargets(m) # {} /\ pingAt[m] <= now))
 \* time passes, but never beyond a deadline that is due
 Deadlines ==
-  {p.due : p \in pend} \cup UNION {{retryC[n][c].due : c \in DOMAIN retryC[n]} : n \in Node}
+  {p.due : p \in {q \in pend : q.kind # "join"}} \cup UNION {{retryC[n][c].due : c \in DOMAIN retryC[n]} : n \in Node}
   \cup UNION {{createdC[n][c].due : c \in DOMAIN createdC[n]} : n \in Node}
   \cup UNION {{createC[n][c].due : c \in DOMAIN createC[n]} : n \in Node}
   \cup UNION {{pingC[n][c] : c \in DOMAIN pingC[n]} : n \in Node}
@@ -804,6 +839,7 @@ Core ==
         ((HasEntries(n) /\ sweepAt[n] <= now /\ Sweep(n))
          \/ (~(HasEntries(n) /\ sweepAt[n] <= now) /\ PingTargets(n) # {} /\ pingAt[n] <= now /\ DoPing(n)))
   \/ \E p \in pend : PendPop(p)
+  \/ \E p \in pend : JoinResume(p)
   \/ \E n \in Node, cid \in 1..ctr.cid : RetryTimeout(n, cid)
   \/ \E n \in Node, kind \in {"created", "create", "ping"}, k \in 1..(ctr.cid + ctr.ident) : CacheTimeout(n, kind, k)
   \/ Tick(NextDeadline)
